@@ -16,6 +16,13 @@ cargo test --offline "$T" > /tmp/cs.$$.2 2>&1; r2=$?
 git checkout -q -- . ; git clean -fdq -e SEED -e target
 git apply "$SD/patch.diff" || { echo "RESULT patch.diff does not apply"; exit 1; }
 cargo test --workspace --no-fail-fast --offline > /tmp/cs.$$.3 2>&1; r3=$?
+# the suite contains one timing-dependent test (console embedded_io read_exact) that fails on a loaded machine: retry, and
+# report which tests failed
+for try in 1 2; do
+  [ $r3 -eq 0 ] && break
+  echo "suite failed (attempt $try): $(grep -E '^test .* FAILED' /tmp/cs.$$.3 | tr '\n' ' ')"
+  cargo test --workspace --no-fail-fast --offline > /tmp/cs.$$.3 2>&1; r3=$?
+done
 n3=$(grep -E "^test result:" /tmp/cs.$$.3 | head -1)
 cargo build --offline --no-default-features > /tmp/cs.$$.4 2>&1; r4=$?
 git checkout -q -- . ; git clean -fdq -e SEED -e target
